@@ -14,6 +14,7 @@ THEOREMS = ["EngineModel.Properties.C08V2." + t for t in [
     "C08V2_frame_add_remove",
     "C08V2_add_present_noop",
     "C08V2_remove_absent_noop",
+    "C08V2_remove_track_spares_foreign_entries",
     "C08V2_removal_erases",
 ]]
 ASSUMPTIONS = [
